@@ -101,10 +101,13 @@ def plan(seed, tier="quick", index=0):
                 ]
             )
         return {"property": PROPERTY, "seed": seed, "stratum": stratum, "threads": threads, "strategy": strategy, "ops": []}
+    if rng.random() < 0.01:
+        # hundreds of keys in one process (no public-key derivation for most of them)
+        stratum, nops = "long", rng.choice([300, 520, 1030])
     ops = []
     while len(ops) < nops:
-        kind = stratum if stratum != "mixed" else rng.choice(["boundary", "pairs", "random"])
-        via = "cli" if rng.random() < 0.15 else "api"
+        kind = stratum if stratum not in ("mixed", "long") else rng.choice(["boundary", "pairs", "random"])
+        via = "cli" if rng.random() < (0.02 if stratum == "long" else 0.15) else "api"
         if kind == "boundary":
             pre = rng.choice([[], [], ["ZERO"], ["ZERO", "ZERO"], ["ZERO"] * rng.randrange(3, 8)])
             last = rng.choice(["ZERO", "ONE", "ONE", "BOUND-1", "BOUND-1", "BOUND-2", "MID", {"frac": rng.random()}, {"v": hex(rng.getrandbits(rng.choice([16, 100, 127, 240])))}])
@@ -325,6 +328,9 @@ def execute(scenario, tape=None, keep_events=False):
             if k == N - 1:
                 probes.hit("key=n-1")
             # public key = k*G
+            if sc["stratum"] == "long" and i % 50:
+                made.append((i, drawn[-1] if drawn else None, k))
+                continue  # long histories: derive and check the public key only for every 50th key
             Pt = EC.mul(k)
             for comp in (True, False):
                 want = EC.pub_bytes(k, comp)
